@@ -304,20 +304,45 @@ def area_consts(area: str) -> str | None:
 
 
 HEADER = """/-! REGENERATED from /repo's working tree on every run by harness/kernels.py — do not edit.
-Fenwick index walks, the Luby loop and the Status enum exactly as the source has them now. -/
+%s exactly as the source has it now. -/
 namespace Solvor.Gen
 """
 
+# which area's check depends on which generated file (Kernels.lean = the Status enum: everybody)
+PART_AREA = {"FenwickKernels.lean": "Ds", "LubyKernels.lean": "Sat"}
 
-def generate() -> dict[str, str]:
-    files = {"Kernels.lean": HEADER + fenwick() + luby() + status() + "\nend Solvor.Gen\n"}
+
+def generate(areas=None) -> tuple[dict[str, str], dict[str, str]]:
+    """Returns (files, errors) keyed by file name.  A part that fails to translate is reported in
+    `errors`; the caller decides whether it concerns the property at hand."""
+    files, errors = {}, {}
+    parts = {"Kernels.lean": ("The Status enum", status),
+             "FenwickKernels.lean": ("The Fenwick index walks", fenwick),
+             "LubyKernels.lean": ("The Luby loop", luby)}
+    for name, (what, fn) in parts.items():
+        try:
+            files[name] = HEADER % what + fn() + "\nend Solvor.Gen\n"
+        except TranslateError as e:
+            errors[name] = str(e)
     d = VERIF / "harness" / "kernels.d"
     if d.is_dir():
         for f in sorted(d.glob("*.json")):
-            txt = area_consts(f.stem)
-            if txt is not None:
-                files[f"{f.stem}Consts.lean"] = txt
-    return files
+            name = f"{f.stem}Consts.lean"
+            try:
+                txt = area_consts(f.stem)
+                if txt is not None:
+                    files[name] = txt
+            except TranslateError as e:
+                errors[name] = str(e)
+    return files, errors
+
+
+def relevant(name: str, areas) -> bool:
+    if areas is None or name == "Kernels.lean":
+        return True
+    if name in PART_AREA:
+        return PART_AREA[name] in areas
+    return name.endswith("Consts.lean") and name[:-len("Consts.lean")] in areas
 
 
 def write(files: dict[str, str]) -> list[str]:
@@ -333,21 +358,23 @@ def write(files: dict[str, str]) -> list[str]:
     return changed
 
 
-def regenerate() -> tuple[list[str], str | None]:
-    """Returns (changed files, error text or None)."""
-    try:
-        files = generate()
-    except TranslateError as e:
-        return [], str(e)
-    return write(files), None
+def regenerate(areas=None) -> tuple[list[str], str | None]:
+    """Regenerate every part; returns (changed files relevant to `areas`, error text or None).
+    Parts that belong to other areas are refreshed when they translate and left alone when they do
+    not (their own property's check reports that)."""
+    files, errors = generate(areas)
+    changed = [c for c in write(files) if relevant(c, areas)]
+    errs = [f"{n}: {e}" for n, e in errors.items() if relevant(n, areas)]
+    return changed, ("; ".join(errs) if errs else None)
 
 
-def restore_pinned() -> None:
+def restore_pinned(areas=None) -> None:
     """Put the committed pinned copies back (used when the regenerated slice breaks the build,
     so that the failing-input search can still run against the last accepted model)."""
     pin = LEAN / "Solvor" / "Gen" / "pinned"
     for p in pin.glob("*.lean.txt"):
-        (LEAN / "Solvor" / "Gen" / p.name[:-4]).write_text(p.read_text())
+        if relevant(p.name[:-4], areas):
+            (LEAN / "Solvor" / "Gen" / p.name[:-4]).write_text(p.read_text())
 
 
 if __name__ == "__main__":
